@@ -1,4 +1,5 @@
 import EV.Proofs.IndexObs
+import EV.Proofs.IndexFlushUtxo
 
 /-!
 # C01 — Confirmed UTXO set and balances equal the chain's true unspent outputs
@@ -58,6 +59,22 @@ theorem C01_all_utxos {s : Sys} {U D : List Utxo} (w : RepSysW s U D []) (hc : s
       rows.Perm ((U.filter (fun u => u.hx == hx)).map
         (fun u => ⟨u.txnum, u.idx, u.txid, (fsTxHash s u.txnum).2, u.value⟩)) :=
   allUtxos_flushed w hc hx
+
+/-- **C01 (a full flush changes nothing that is represented).**  The UTXO batch of a flush
+(`flush_utxo_db`: sorted deletes, then the `h`/`u` puts of every cache entry, undo rows, state)
+applied to a system representing `U`, with the cache and delete queue emptied afterwards, yields a
+system that represents the same `U` entirely from its rows — for any placement of the flush.
+`TxnumFun`: tx numbers determine txids within `U` (true of every chain: a tx number names one tx);
+`hres`: the tx-number files resolve every represented tx number after the flush (the file layer:
+`flush_fs` wrote the hashes before the batch; validated by the index suite). -/
+theorem C01_flush {s s' : Sys} {U D Del : List Utxo} (w : RepSysW s U D Del)
+    (hfun : TxnumFun U) (st' : CState)
+    (hp : s'.p.h = (applyEffect s.p (utxoBatchEffect s st')).h ∧
+          s'.p.u = (applyEffect s.p (utxoBatchEffect s st')).u)
+    (hcache : s'.m.cache = []) (hdel : s'.m.deletes = [])
+    (hres : ∀ u ∈ U, resolve s' u.txnum = some u.txid) :
+    RepSysW s' U U [] :=
+  flushUtxo_rep w hfun st' hp hcache hdel hres
 
 /-- the empty index represents the empty UTXO set (start of every run) -/
 theorem C01_init : RepSys {} [] :=
